@@ -1,0 +1,275 @@
+//! Verification hooks. Compiled only with `--cfg agdb_verif`; with the flag
+//! off this module does not exist and none of the call sites are compiled.
+//!
+//! * [`FsEvent`] / [`set_fs_hook`]: a per-thread callback invoked *before*
+//!   every file system call of `FileStorage` and `WriteAheadLog` that mutates
+//!   a file or moves the shared read cursor.
+//! * [`StorageProbe`] / [`MapProbe`]: public wrappers that only delegate to
+//!   the crate-internal `Storage` and `MultiMapStorage`.
+//! * [`set_probe_budget`] / [`set_min_map_capacity`]: loop-step counter and
+//!   scaled-down hash map capacity for exhaustive exploration.
+
+use crate::DbError;
+use crate::StorageData;
+use crate::collections::multi_map::MultiMapStorage;
+use crate::storage::Storage;
+use crate::storage::StorageIndex;
+use std::cell::Cell;
+use std::cell::RefCell;
+
+/// File system call about to be made.
+#[derive(Debug, Clone, PartialEq, Eq)]
+pub enum FsEvent<'a> {
+    /// `seek(pos)` + `write_all(bytes)` on the data file.
+    DataWrite { pos: u64, bytes: &'a [u8] },
+    /// `set_len(len)` on the data file.
+    DataSetLen { len: u64 },
+    /// `write_all(bytes)` at the end of the recovery log.
+    WalAppend { bytes: &'a [u8] },
+    /// `set_len(len)` on the recovery log.
+    WalSetLen { len: u64 },
+    /// `try_lock` of the shared handle in `FileStorage::read`.
+    ReadTryLock,
+    /// fallback `File::open` in `FileStorage::read`.
+    ReadOpen,
+    /// `seek(pos)` on a handle used for reading.
+    ReadSeek { pos: u64 },
+    /// `read_exact` of `len` bytes on a handle used for reading.
+    ReadExact { len: u64 },
+}
+
+type FsHook = Box<dyn FnMut(&FsEvent)>;
+
+thread_local! {
+    static FS_HOOK: RefCell<Option<FsHook>> = const { RefCell::new(None) };
+    static PROBE_BUDGET: Cell<u64> = const { Cell::new(u64::MAX) };
+    static PROBE_USED: Cell<u64> = const { Cell::new(0) };
+    static MIN_MAP_CAPACITY: Cell<u64> = const { Cell::new(0) };
+}
+
+/// Installs the calling thread's file system hook.
+pub fn set_fs_hook(hook: impl FnMut(&FsEvent) + 'static) {
+    FS_HOOK.with(|h| *h.borrow_mut() = Some(Box::new(hook)));
+}
+
+/// Removes the calling thread's file system hook.
+pub fn clear_fs_hook() {
+    FS_HOOK.with(|h| *h.borrow_mut() = None);
+}
+
+pub(crate) fn fs_event(event: FsEvent) {
+    let hook = FS_HOOK.with(|h| h.borrow_mut().take());
+
+    if let Some(mut hook) = hook {
+        hook(&event);
+        FS_HOOK.with(|h| {
+            let mut slot = h.borrow_mut();
+            if slot.is_none() {
+                *slot = Some(hook);
+            }
+        });
+    }
+}
+
+/// Marker contained in the panic raised when the probe budget is exhausted.
+pub const PROBE_BUDGET_EXHAUSTED: &str = "agdb_verif: probe budget exhausted";
+
+/// Sets the number of hash map probe steps the calling thread may take
+/// until the next call of this function; exceeding it panics with
+/// [`PROBE_BUDGET_EXHAUSTED`].
+pub fn set_probe_budget(budget: u64) {
+    PROBE_BUDGET.with(|b| b.set(budget));
+    PROBE_USED.with(|u| u.set(0));
+}
+
+/// Probe steps taken since the last [`set_probe_budget`].
+pub fn probe_steps() -> u64 {
+    PROBE_USED.with(|u| u.get())
+}
+
+pub(crate) fn probe_tick() {
+    let used = PROBE_USED.with(|u| {
+        u.set(u.get() + 1);
+        u.get()
+    });
+
+    if used > PROBE_BUDGET.with(|b| b.get()) {
+        PROBE_BUDGET.with(|b| b.set(u64::MAX));
+        panic!("{PROBE_BUDGET_EXHAUSTED}");
+    }
+}
+
+/// Overrides the minimum hash map capacity (64) for the calling thread;
+/// 0 restores the built-in value.
+pub fn set_min_map_capacity(capacity: u64) {
+    MIN_MAP_CAPACITY.with(|c| c.set(capacity));
+}
+
+pub(crate) fn min_capacity(requested: u64, default: u64) -> u64 {
+    match MIN_MAP_CAPACITY.with(|c| c.get()) {
+        0 => default,
+        min => std::cmp::max(requested, min),
+    }
+}
+
+/// Public wrapper of the crate-internal storage layer.
+pub struct StorageProbe<D: StorageData> {
+    storage: Storage<D>,
+}
+
+impl<D: StorageData> StorageProbe<D> {
+    pub fn new(name: &str) -> Result<Self, DbError> {
+        Ok(Self {
+            storage: Storage::new(name)?,
+        })
+    }
+
+    pub fn with_data(data: D) -> Result<Self, DbError> {
+        Ok(Self {
+            storage: Storage::with_data(data)?,
+        })
+    }
+
+    pub fn insert_bytes(&mut self, bytes: &[u8]) -> Result<u64, DbError> {
+        self.storage.insert_bytes(bytes).map(|i| i.0)
+    }
+
+    pub fn insert_bytes_at(&mut self, index: u64, offset: u64, bytes: &[u8]) -> Result<(), DbError> {
+        self.storage
+            .insert_bytes_at(StorageIndex(index), offset, bytes)
+    }
+
+    pub fn replace_with_bytes(&mut self, index: u64, bytes: &[u8]) -> Result<(), DbError> {
+        self.storage.replace_with_bytes(StorageIndex(index), bytes)
+    }
+
+    pub fn resize_value(&mut self, index: u64, new_size: u64) -> Result<(), DbError> {
+        self.storage.resize_value(StorageIndex(index), new_size)
+    }
+
+    pub fn move_at(&mut self, index: u64, from: u64, to: u64, size: u64) -> Result<(), DbError> {
+        self.storage.move_at(StorageIndex(index), from, to, size)
+    }
+
+    pub fn remove(&mut self, index: u64) -> Result<(), DbError> {
+        self.storage.remove(StorageIndex(index))
+    }
+
+    pub fn optimize_storage(&mut self) -> Result<(), DbError> {
+        self.storage.optimize_storage()
+    }
+
+    pub fn transaction(&mut self) -> u64 {
+        self.storage.transaction()
+    }
+
+    pub fn commit(&mut self, id: u64) -> Result<(), DbError> {
+        self.storage.commit(id)
+    }
+
+    pub fn value_as_bytes(&self, index: u64) -> Result<Vec<u8>, DbError> {
+        self.storage
+            .value_as_bytes(StorageIndex(index))
+            .map(|b| b.to_vec())
+    }
+
+    pub fn value_as_bytes_at(&self, index: u64, offset: u64) -> Result<Vec<u8>, DbError> {
+        self.storage
+            .value_as_bytes_at(StorageIndex(index), offset)
+            .map(|b| b.to_vec())
+    }
+
+    pub fn value_as_bytes_at_size(
+        &self,
+        index: u64,
+        offset: u64,
+        size: u64,
+    ) -> Result<Vec<u8>, DbError> {
+        self.storage
+            .value_as_bytes_at_size(StorageIndex(index), offset, size)
+            .map(|b| b.to_vec())
+    }
+
+    pub fn value_size(&self, index: u64) -> Result<u64, DbError> {
+        self.storage.value_size(StorageIndex(index))
+    }
+
+    pub fn len(&self) -> u64 {
+        self.storage.len()
+    }
+
+    pub fn is_empty(&self) -> bool {
+        self.storage.len() == 0
+    }
+
+}
+
+/// Public wrapper of the crate-internal persistent hash multi map
+/// (`u64` keys and values) living in its own storage.
+pub struct MapProbe<D: StorageData> {
+    storage: Storage<D>,
+    map: MultiMapStorage<u64, u64, D>,
+}
+
+impl<D: StorageData> MapProbe<D> {
+    pub fn new(name: &str) -> Result<Self, DbError> {
+        let mut storage = Storage::new(name)?;
+        let map = MultiMapStorage::new(&mut storage)?;
+        Ok(Self { storage, map })
+    }
+
+    pub fn insert(&mut self, key: u64, value: u64) -> Result<(), DbError> {
+        self.map.insert(&mut self.storage, &key, &value)
+    }
+
+    /// Replaces the first value of `key` equal to `old` by `new`, or inserts.
+    pub fn insert_or_replace(
+        &mut self,
+        key: u64,
+        old: u64,
+        new: u64,
+    ) -> Result<Option<u64>, DbError> {
+        self.map
+            .insert_or_replace(&mut self.storage, &key, |v| *v == old, &new)
+    }
+
+    pub fn remove_key(&mut self, key: u64) -> Result<(), DbError> {
+        self.map.remove_key(&mut self.storage, &key)
+    }
+
+    pub fn remove_value(&mut self, key: u64, value: u64) -> Result<(), DbError> {
+        self.map.remove_value(&mut self.storage, &key, &value)
+    }
+
+    pub fn value(&self, key: u64) -> Result<Option<u64>, DbError> {
+        self.map.value(&self.storage, &key)
+    }
+
+    pub fn values(&self, key: u64) -> Result<Vec<u64>, DbError> {
+        self.map.values(&self.storage, &key)
+    }
+
+    pub fn contains(&self, key: u64) -> Result<bool, DbError> {
+        self.map.contains(&self.storage, &key)
+    }
+
+    pub fn contains_value(&self, key: u64, value: u64) -> Result<bool, DbError> {
+        self.map.contains_value(&self.storage, &key, &value)
+    }
+
+    pub fn entries(&self) -> Vec<(u64, u64)> {
+        self.map.iter(&self.storage).collect()
+    }
+
+    pub fn len(&self) -> u64 {
+        self.map.len()
+    }
+
+    pub fn is_empty(&self) -> bool {
+        self.map.len() == 0
+    }
+
+    pub fn capacity(&self) -> u64 {
+        self.map.capacity()
+    }
+}
